@@ -120,6 +120,10 @@ theorem alookup_append (m : List (α × β)) (k k' : α) (v : β) :
     · simp only [ha, if_false]
       exact ih
 
+theorem alookup_erase_append_self (m : List (α × β)) (k : α) (v : β) :
+    alookup (aerase m k ++ [(k, v)]) k = some v := by
+  rw [alookup_append, alookup_aerase_self]; simp
+
 theorem aupdate_lookup_self (cap : Nat) (m m' : List (α × β)) (k : α) (v : β)
     (h : aupdate cap m k v = some m') : alookup m' k = some v := by
   unfold aupdate at h
